@@ -416,7 +416,7 @@ impl DSet for SimpleDSym {
             Some(1)
         } else if j == i + 1 {
             Some(self.orbit_rs[self.orbit_index[i][d]])
-        } else if j == i - 1 {
+        } else if i == j + 1 {
             Some(self.orbit_rs[self.orbit_index[j][d]])
         } else if self.op(i, d) == self.op(j, d) {
             Some(1)
@@ -438,7 +438,7 @@ impl DSym for SimpleDSym {
             Some(1)
         } else if j == i + 1 {
             Some(self.orbit_vs[self.orbit_index[i][d]])
-        } else if j == i - 1 {
+        } else if i == j + 1 {
             Some(self.orbit_vs[self.orbit_index[j][d]])
         } else if self.op(i, d) == self.op(j, d) {
             Some(2)
